@@ -291,7 +291,7 @@ PROPS = {
         ],
         'standins': [
             {'fn': 'producers merge, DWARF carry-over, on_parse callback, switches end to end', 'argv': ['config'],
-             'bound': 'all 2^3 switch combinations x inputs with/without name, producers (3 variants), DWARF sections (96 cases) + 3 invalid inputs; 4 consecutive round trips for the producers clause',
+             'bound': 'all 2^4 switch combinations (names, producers, DWARF, preserve_code_transform) x inputs with/without name, producers (3 variants), DWARF sections (192 cases) + 3 invalid inputs; 4 consecutive round trips for the producers clause',
              'why': 'string loops and boxed callbacks are outside Verus'},
         ],
     },
